@@ -99,6 +99,9 @@ pub struct World {
 impl World {
     pub fn new(family: &str, problem: &PProblem) -> Result<World, String> {
         let core = read_problem(problem)?;
+        // a lock whose condition matches SEVERAL vehicles cannot be written as a pragmatic relation (which names one vehicle):
+        // built through the core API on top of the problem as read
+        let core = if family == "widelock" { with_wide_lock(core, &problem.name)? } else { core };
         let random = Arc::new(ScriptedRandom::new(vec![], Fallback::Default));
         let env = Arc::new(Environment::new(random.clone(), None, Parallelism::new_with_cpus(2), Arc::new(|_| {}), false));
         Ok(World { family: family.to_string(), problem: problem.clone(), core, random, env })
@@ -151,6 +154,39 @@ impl World {
         }
         out
     }
+}
+
+/// Re-creates the problem with one lock on the jobs j0, j1 whose condition accepts the vehicles v_1 and v_2, and with the
+/// library's locked-jobs constraint for it (order taken from the problem name: any / sequence / strict).
+fn with_wide_lock(core: Arc<CoreProblem>, name: &str) -> Result<Arc<CoreProblem>, String> {
+    use vrp_core::construction::features::create_locked_jobs_feature;
+    use vrp_core::models::{Lock, LockDetail, LockOrder, LockPosition};
+    let order = if name.contains("strict") {
+        LockOrder::Strict
+    } else if name.contains("sequence") {
+        LockOrder::Sequence
+    } else {
+        LockOrder::Any
+    };
+    let jobs: Vec<Job> = ["j0", "j1"].iter().filter_map(|id| core.jobs.all().iter().find(|j| job_id(j) == *id).cloned()).collect();
+    if jobs.len() != 2 {
+        return Err("wide lock: jobs j0, j1 not found".into());
+    }
+    let condition: Arc<dyn Fn(&vrp_core::models::problem::Actor) -> bool + Send + Sync> =
+        Arc::new(|actor| actor.vehicle.dimens.get_vehicle_id().is_some_and(|id| id == "v_1" || id == "v_2"));
+    let lock = Arc::new(Lock::new(condition, vec![LockDetail::new(order, LockPosition::Any, jobs)], false));
+    let feature = create_locked_jobs_feature("wide_lock", core.fleet.as_ref(), &[lock.clone()], vrp_core::models::ViolationCode(99)).map_err(|e| e.to_string())?;
+    let constraint = feature.constraint.ok_or("locked jobs feature has no constraint")?;
+    let goal = core.goal.with_constraints(core.goal.constraints().chain(std::iter::once(constraint)));
+    Ok(Arc::new(CoreProblem {
+        fleet: core.fleet.clone(),
+        jobs: core.jobs.clone(),
+        locks: vec![lock],
+        goal: Arc::new(goal),
+        activity: core.activity.clone(),
+        transport: core.transport.clone(),
+        extras: core.extras.clone(),
+    }))
 }
 
 fn job_id(job: &Job) -> String {
@@ -330,6 +366,31 @@ fn structural(world: &World, ctx: &InsertionContext) -> Vec<(String, String)> {
                     }
                 }
             }
+            // a pinned sequence stays whole: its assigned jobs are on ONE tour, in the given order (strict: next to each other)
+            if !matches!(detail.order, vrp_core::models::LockOrder::Any) {
+                let positions: Vec<Option<(usize, usize)>> = detail
+                    .jobs
+                    .iter()
+                    .map(|job| {
+                        ctx.solution.routes.iter().enumerate().find_map(|(ri, rc)| {
+                            rc.route().tour.all_activities().position(|a| a.retrieve_job().is_some_and(|j| &j == job)).map(|pos| (ri, pos))
+                        })
+                    })
+                    .collect();
+                let assigned: Vec<(usize, usize)> = positions.iter().flatten().copied().collect();
+                if !assigned.is_empty() {
+                    let ids: Vec<String> = detail.jobs.iter().map(job_id).collect();
+                    if assigned.len() != detail.jobs.len() {
+                        errs.push(("I4:pinned-sequence-partly-assigned".to_string(), format!("jobs {ids:?} at {positions:?}")));
+                    } else if assigned.iter().any(|(ri, _)| *ri != assigned[0].0) {
+                        errs.push(("I4:pinned-sequence-split-over-tours".to_string(), format!("jobs {ids:?} at (tour, position) {assigned:?}")));
+                    } else if assigned.windows(2).any(|w| w[0].1 >= w[1].1) {
+                        errs.push(("I4:pinned-sequence-out-of-order".to_string(), format!("jobs {ids:?} at (tour, position) {assigned:?}")));
+                    } else if matches!(detail.order, vrp_core::models::LockOrder::Strict) && assigned.windows(2).any(|w| w[0].1 + 1 != w[1].1) {
+                        errs.push(("I4:pinned-strict-sequence-interleaved".to_string(), format!("jobs {ids:?} at (tour, position) {assigned:?}")));
+                    }
+                }
+            }
         }
     }
     errs
@@ -505,6 +566,30 @@ fn slice(tier: Tier) -> Vec<(String, PProblem)> {
         let step = (candidates.len() / per.max(1)).max(1);
         out.extend(candidates.into_iter().step_by(step).take(per).map(|p| (name.to_string(), p)));
     }
+    // locks matching several vehicles (core API)
+    for order in ["any", "sequence", "strict"] {
+        let jobs: Vec<PJob> = (0..4)
+            .map(|i| PJob {
+                id: format!("j{i}"),
+                tasks: vec![PTask { kind: TaskKind::Delivery, places: vec![PPlace { loc: 1 + i, duration: 2., times: vec![], tag: None }], demand: vec![1], order: None }],
+                skills: None,
+                group: None,
+                compatibility: None,
+                value: None,
+            })
+            .collect();
+        let mut p = PProblem {
+            name: format!("widelock/{order}"),
+            jobs,
+            vehicles: vec![vehicle_type("v", 3, &[4], vec![shift(ShiftKind::Closed)])],
+            matrices: vec![standard_matrix("car", 5)],
+            relations: vec![],
+            objectives: None,
+            clustering: None,
+        };
+        p = p.fit_matrices();
+        out.push(("widelock".to_string(), p));
+    }
     // scaled-down line problems with a relation (locks) and 2 vehicles
     for p in family_line12() {
         out.push(("line12".to_string(), p));
@@ -611,10 +696,14 @@ fn explore(ctx: &RunCtx, world: &World, report: &mut Report) {
                                     c.solution.routes.iter().find(|rc| rc.route().tour.contains(job)).and_then(|rc| rc.route().actor.vehicle.dimens.get_vehicle_id().cloned())
                                 };
                                 let (before, after) = (vehicle_of(&state), vehicle_of(&next));
-                                // jobs of an `any` relation may be taken out and put back (only onto their vehicle);
-                                // jobs of sequence/strict relations (the `locked` set) must not be touched at all
+                                // jobs of an `any` relation may be taken out and put back; jobs of sequence/strict relations (the
+                                // `locked` set) must stay assigned. "Their vehicle" is any vehicle the lock condition accepts
+                                // (one vehicle for a pragmatic relation); the state invariants judge condition, wholeness and order
+                                let accepted = |c: &InsertionContext| {
+                                    c.solution.routes.iter().find(|rc| rc.route().tour.contains(job)).is_none_or(|rc| (lock.condition_fn)(rc.route().actor.as_ref()))
+                                };
                                 let strict = state.solution.locked.contains(job);
-                                let moved = if strict { before != after } else { after.is_some() && before != after };
+                                let moved = (strict && after.is_none()) || !accepted(&next);
                                 if before.is_some() && moved {
                                     report.violation(Violation::new(
                                         format!("I4:pinned-job-moved:{}:{}", world.family, names[oi].split('+').next().unwrap_or("")),
